@@ -169,7 +169,7 @@ class Check(object):
         refuted = {}
         first_reason = {}
         for ur, o, r in rows:
-            if o.name in open_names:
+            if o.name in open_names and r["verdict"] != "proved":
                 first_reason.setdefault(o.name, "%s %s" % (r["verdict"], r.get("reason", "")))
         for k in range(1, self.max_scope + 1):
             remaining = [n for n in open_names if n not in refuted]
